@@ -533,6 +533,19 @@ def enfOp (st : EnfSt) (ts : List String) : Option (EnfSt × String × String ×
                     | none => "err"
                   ret e (showBool granted) sp (inFamily && arity && d24 && depthOk)
           | _, _, _ => ret e "err" "-" true
+      | "iusersres", [res] => do
+          let res ← decodeTok res
+          if !ep.prm.isEmpty then ret e "none" "-" false else
+          match e.rm.lookup "g", e.p.lookup "p", e.g.lookup "g", e.md.p.lookup "p" with
+          | some rm, some s, some gs, some toks =>
+              let roleNames := gs.policy.map (fun r => r.getD 1 "")
+              match toks.idxOf? "sub", toks.idxOf? "obj" with
+              | some si, some oi =>
+                  match Rbac.implicitUsersForResource s.policy rm (fun x => roleNames.contains x) si oi res with
+                  | some rows => ret e ("L " ++ (if rows.isEmpty then "-" else " | ".intercalate (sortStrs (rows.map encodeRule)))) "-" true
+                  | none => ret e "fuel" "-" true
+              | _, _ => ret e "none" "-" false
+          | _, _, _, _ => ret e "err" "-" true
       | "iusers", perm => do
           let perm ← decodeAll perm
           if !ep.prm.isEmpty then ret e "none" "-" false else
